@@ -758,16 +758,19 @@ def run_spec(ctx, spec, harvested, seen_cls, fail_cls, excluded_log):
             ctx.disagree(f"{nm}: the model driver rejects the request", {"value": _short(toks), "answer": a[:1]})
             continue
         if w[0] == "ok":
-            if a[0] != "ok" or a[1] != hx(w[1]):
+            # a broken correspondence never hides the property: the reader case and the Python-only oracle below run on the
+            # bytes the real writer produced whether or not the model agrees with them
+            bytes_ok = a[0] == "ok" and a[1] == hx(w[1])
+            if not bytes_ok:
                 ctx.disagree(f"{nm}: write() bytes != model enc", {"value": _short(toks), "version": v, "padding": pad,
                                                                   "model": a[:2] if a[0] != "ok" else _short(a[1], 200), "py": hx(w[1])[:200]})
-                continue
-            if int(a[2]) != w[2]:
-                ctx.disagree(f"{nm}: count returned by write != model count", {"value": _short(toks), "py": w[2], "model": a[2]})
-            if after != toks:
-                ctx.disagree(f"{nm}: write() changed the object (the model says it does not)", {"value": _short(toks), "after": _short(after)})
-            iswf = a[3] == "1"
+            else:
+                if int(a[2]) != w[2]:
+                    ctx.disagree(f"{nm}: count returned by write != model count", {"value": _short(toks), "py": w[2], "model": a[2]})
+                if after != toks:
+                    ctx.disagree(f"{nm}: write() changed the object (the model says it does not)", {"value": _short(toks), "after": _short(after)})
             why = spec.excluded(x, pad, rpad)
+            iswf = (a[3] == "1") if bytes_ok else (why is None)
             if iswf != (why is None):
                 ctx.disagree(f"{nm}: model WF disagrees with the harness's reading of the clauses",
                              {"value": _short(toks), "model_wf": iswf, "harness": why})
@@ -789,8 +792,8 @@ def run_spec(ctx, spec, harvested, seen_cls, fail_cls, excluded_log):
                 rt = spec.tokens(r[1])
             except (NotRep, skel.NotSkeleton) as e:
                 ctx.disagree(f"{nm}: re-read value is not representable in the model", {"value": _short(toks), "why": str(e)})
-                continue
-            if a[0] != "ok" or a[1] != rt or int(a[2]) != r[2]:
+                rt = None                      # the Python-only oracle below still runs (it counts this as "re-read differs")
+            if rt is not None and (a[0] != "ok" or a[1] != rt or int(a[2]) != r[2]):
                 ctx.disagree(f"{nm}: read() structure / cursor != model dec",
                              {"value": _short(toks), "py": _short(rt), "model": _short(a[1]) if len(a) > 1 else a,
                               "py_pos": r[2], "model_pos": a[2] if len(a) > 2 else None, "version": v, "padding": pad})
